@@ -17,10 +17,11 @@ TARGET = _real_os.path.join(REPO, 'playback', 'studio', 'equalizer.py')
 
 WORKER_ONLY = ('worker_exit', 'worker_abort', 'worker_hang', 'worker_late_answer', 'worker_late_death')
 BEHAVIOURS = ['equal', 'different', 'player_raises', 'operation_raises', 'extractor_raises', 'comparator_raises', 'comparator_bare_status', 'slow',
-              'worker_exit', 'worker_abort', 'worker_hang', 'worker_late_answer', 'worker_late_death', 'spawns_helper']
+              'worker_exit', 'worker_abort', 'worker_hang', 'worker_late_answer', 'worker_late_death', 'spawns_helper', 'missing_key']
 
 ALLOWED = {
     'equal': ['Equal'], 'slow': ['Equal'], 'different': ['Different'], 'spawns_helper': ['Equal'],
+    'missing_key': ['EqualizerFailure'],
     'player_raises': ['EqualizerFailure'], 'operation_raises': ['EqualizerFailure'], 'extractor_raises': ['EqualizerFailure'], 'comparator_raises': ['EqualizerFailure'],
     'comparator_bare_status': ['Fixed'],
     'worker_exit': ['EqualizerFailure'], 'worker_abort': ['EqualizerFailure'], 'worker_hang': ['EqualizerFailure'],
@@ -82,7 +83,13 @@ def build_operation(recorder, world):
         @recorder.operation()
         def execute(self, tag):
             v = self.read(tag)
+            self.emit(tag)
             if not getattr(world, 'recording_phase', False):
+                if world.effective(tag) == 'missing_key':
+                    # the replayed code asks for an input the (older) recording does not hold, after it already sent an
+                    # output: play() fails with a missing-key error for this recording
+                    world.run.fault('replay_misses_a_key')
+                    self.read('never-recorded-%s' % tag)
                 behave(world, tag)
             changed = (not getattr(world, 'recording_phase', False)) and world.effective(tag) == 'different'
             return {'tag': tag, 'v': 'changed' if changed else v}
@@ -90,6 +97,10 @@ def build_operation(recorder, world):
         @recorder.intercept_input('read')
         def read(self, tag):
             return 'value-of-%s' % tag
+
+        @recorder.intercept_output('emit')
+        def emit(self, tag):
+            return None
     from simkit import dynclasses
     dynclasses.register('OpA', OpA)
     return OpA
@@ -194,6 +205,9 @@ class Extractor(object):
         if isinstance(val, dict) and self.world.effective(val.get('tag')) == 'extractor_raises':
             self.world.run.fault('extractor_raises')
             raise ValueError('extractor fails for %s' % val.get('tag'))
+        if isinstance(val, dict):
+            # everything the run sent takes part in the comparison
+            val = dict(val, emitted=[o.value['args'] for o in outputs if TapeRecorder.OPERATION_OUTPUT_ALIAS not in o.key])
         return val
 
 
